@@ -913,10 +913,10 @@ theorem gen_line_object :
     of its name in the enclosing scope. -/
 theorem gen_function_shapes :
     PW.Gen.LineFn.functionShapes =
-      [("intersect_lines", [], "p0, q0, p1, q1", ["expr vg.shape.check(locals(), 'p0', (3,))", "expr vg.shape.check(locals(), 'q0', (3,))", "expr vg.shape.check(locals(), 'p1', (3,))", "expr vg.shape.check(locals(), 'q1', (3,))"], 0),
-       ("intersect_2d_lines", [], "p0, q0, p1, q1", ["expr vg.shape.check(locals(), 'p0', (2,))", "expr vg.shape.check(locals(), 'q0', (2,))", "expr vg.shape.check(locals(), 'p1', (2,))", "expr vg.shape.check(locals(), 'q1', (2,))", "try"], 0),
+      [("intersect_lines", [], "p0, q0, p1, q1", ["expr vg.shape.check(locals(), 'p0', (3,))", "expr vg.shape.check(locals(), 'p1', (3,))", "expr vg.shape.check(locals(), 'q0', (3,))", "expr vg.shape.check(locals(), 'q1', (3,))"], 0),
+       ("intersect_2d_lines", [], "p0, q0, p1, q1", ["expr vg.shape.check(locals(), 'p0', (2,))", "expr vg.shape.check(locals(), 'p1', (2,))", "expr vg.shape.check(locals(), 'q0', (2,))", "expr vg.shape.check(locals(), 'q1', (2,))", "try"], 0),
        ("project_point_to_line", [], "points, reference_points_of_lines, vectors_along_lines", ["expr check_shape_any(reference_points_of_lines, (3,), (-1 if check_shape_any(points, (3,), (-1, 3), name='points') is None else check_shape_any(points, (3,), (-1, 3), name='points'), 3), name='reference_points_of_lines')", "expr vg.shape.check(locals(), 'vectors_along_lines', reference_points_of_lines.shape)"], 0),
-       ("Line.__init__", [], "self, point, along, assume_normalized=False", ["expr vg.shape.check(locals(), 'point', (3,))", "expr vg.shape.check(locals(), 'along', (3,))", "store self.reference_point = point", "store self.along = along", "store self.assume_normalized = assume_normalized"], 0),
+       ("Line.__init__", [], "self, point, along, assume_normalized=False", ["expr vg.shape.check(locals(), 'along', (3,))", "expr vg.shape.check(locals(), 'point', (3,))", "store self.reference_point = point", "store self.along = along", "store self.assume_normalized = assume_normalized"], 0),
        ("Line.from_points", ["classmethod"], "cls, p1, p2", ["expr vg.shape.check(locals(), 'p1', (3,))", "expr vg.shape.check(locals(), 'p2', (3,))"], 0),
        ("Line.reference_points", ["property"], "self", [], 0),
        ("Line.intersect_line", [], "self, other", ["importfrom from ._line_intersect import intersect_lines"], 0),
